@@ -233,6 +233,7 @@ fn main() {
         let line = line.trim();
         if line.is_empty() {
             writeln!(out).unwrap();
+            out.flush().unwrap();
             continue;
         }
         let sent = writeln!(kid.tx, "{line}").and_then(|_| kid.tx.flush());
@@ -264,6 +265,9 @@ fn main() {
             out.write_all(resp.trim_end().as_bytes()).unwrap();
             out.write_all(b"\n").unwrap();
         }
+        // one flush per answer: pv/core.py run_lines attributes a stall / a dead process to the first case without an
+        // answer, which is the right case only if every earlier answer has left this process
+        out.flush().unwrap();
     }
     out.flush().unwrap();
     drop(kid.tx);
